@@ -21,23 +21,28 @@ def gen_cases(chk, name, cfg, **kw):
     return out
 
 
-def run_pipeline(chk, want, quick_cases=1500, full_cases=60000, nconc=(3, 8)):
+def run_pipeline(chk, want, quick_cases=1500, full_cases=60000, nconc=(3, 8),
+                 mc=("MC_Pipeline_quick.cfg", "MC_Pipeline_full.cfg"),
+                 gen_d1="Gen_Pipeline_d1.cfg", gen_sim="Gen_Pipeline_sim.cfg", filt=None):
     import common
     import pipeline_replay as pr
     rnd = random.Random(chk.seed)
     thorough = chk.tier == "thorough"
     # 1. model checking of the specification (all invariants, exhaustive within bounds)
-    r = tlc.run("MC_Pipeline", "MC_Pipeline_full.cfg" if thorough else "MC_Pipeline_quick.cfg", timeout=3000)
-    chk.mc_must_hold("MC_Pipeline_" + ("full" if thorough else "quick"), r)
+    cfgname = mc[1] if thorough else mc[0]
+    r = tlc.run("MC_Pipeline", cfgname, timeout=3000)
+    chk.mc_must_hold(cfgname, r)
     chk.exhaustive = r.ok
     # 2. behaviours: every distinct depth-1 outcome + sampled deeper pipelines
-    files = [gen_cases(chk, "d1", "Gen_Pipeline_d1.cfg")]
+    files = [gen_cases(chk, "d1", gen_d1)]
     for i in range(4 if thorough else 1):
-        files.append(gen_cases(chk, "sim%d" % i, "Gen_Pipeline_sim.cfg", workers=1))
+        files.append(gen_cases(chk, "sim%d" % i, gen_sim, workers=1))
     cases = []
     for f in files:
         cases += pr.load(f)
         os.remove(f)
+    if filt:
+        cases = [c for c in cases if filt(c)]
     limit = full_cases if thorough else quick_cases
     if len(cases) > limit:
         # stratified by the kind of the last operation so rare operations are not drowned
